@@ -459,6 +459,96 @@ enum AnyCase {
     Two(Case2),
 }
 
+/// cases outside the small decision table: long axes with one defect at every position,
+/// axes that alias each other or the data, and the default index axis of a long f32 data set
+fn special_cases(quick: bool, out: &mut JobOut) {
+    use ndarray::{Array2, ArrayView1};
+    let mut judge1 = |key: String, got: Result<Result<(), ndarray_interp::BuilderError>, String>, want: &[&'static str], out: &mut JobOut, what: String| {
+        let g = match got {
+            Ok(Ok(())) => "Ok".to_string(),
+            Ok(Err(e)) => builder_err_kind(&e).to_string(),
+            Err(p) => format!("panic: {p}"),
+        };
+        let set: BTreeSet<&'static str> = want.iter().cloned().collect();
+        judge(out, key, g, &set, Json::str(&what));
+    };
+    // (1) long axes, one defect at every position
+    let lens: Vec<usize> = if quick { vec![65, 128, 129, 200] } else { vec![33, 64, 65, 127, 128, 129, 130, 200, 256, 257, 1025] };
+    for &n in &lens {
+        let inc: Vec<f64> = (0..n).map(|i| i as f64 * 0.5 - 3.0).collect();
+        let mut variants: Vec<(String, Vec<f64>, bool)> = vec![("increasing".into(), inc.clone(), true)];
+        for p in 0..n - 1 {
+            let mut t = inc.clone();
+            t[p + 1] = t[p];
+            variants.push((format!("tie@{p}"), t, false));
+            let mut d = inc.clone();
+            d[p + 1] = d[p] - 0.25;
+            variants.push((format!("dip@{p}"), d, false));
+        }
+        for p in 0..n {
+            let mut t = inc.clone();
+            t[p] = f64::NAN;
+            variants.push((format!("NaN@{p}"), t, false));
+        }
+        for (name, x, ok) in variants {
+            let want: &[&'static str] = if ok { &[] } else { &["Monotonic"] };
+            let xa = Array1::from(x.clone());
+            let d1 = Array1::from_elem(n, 1.0);
+            let r = catch(|| Interp1DBuilder::new(d1.clone()).x(xa.clone()).build().map(|_| ()));
+            judge1(format!("long1d:n{n}:{name}"), r, want, out, format!("Interp1D, axis of {n} points, {name}"));
+            let d2 = Array2::from_elem((n, 2), 1.0);
+            let r = catch(|| Interp2DBuilder::new(d2.clone()).x(xa.clone()).build().map(|_| ()));
+            judge1(format!("long2dx:n{n}:{name}"), r, want, out, format!("Interp2D, x axis of {n} points, {name}"));
+            let d3 = Array2::from_elem((2, n), 1.0);
+            let r = catch(|| Interp2DBuilder::new(d3.clone()).y(xa.clone()).build().map(|_| ()));
+            judge1(format!("long2dy:n{n}:{name}"), r, want, out, format!("Interp2D, y axis of {n} points, {name}"));
+        }
+    }
+    // (2) aliasing: x and y are views into one table that start at the same element
+    for m in [3usize, 4, 5] {
+        for (xok, yok) in [(true, true), (true, false), (false, true), (false, false)] {
+            let mut table = Array2::<f64>::zeros((m, m));
+            for i in 0..m {
+                for j in 0..m {
+                    table[[i, j]] = 100.0 + (i * m + j) as f64;
+                }
+            }
+            for i in 0..m {
+                table[[i, 0]] = if xok { i as f64 } else { [0.0, 5.0, 1.0, 6.0, 2.0][i] };
+            }
+            for j in 1..m {
+                table[[0, j]] = if yok { table[[0, 0]] + j as f64 } else { [0.0, 5.0, 1.0, 6.0, 2.0][j] };
+            }
+            let x: ArrayView1<f64> = table.column(0);
+            let y: ArrayView1<f64> = table.row(0);
+            let xinc = x.iter().zip(x.iter().skip(1)).all(|(a, b)| a < b);
+            let yinc = y.iter().zip(y.iter().skip(1)).all(|(a, b)| a < b);
+            let data = Array2::from_elem((m, m), 1.0);
+            let want: &[&'static str] = if xinc && yinc { &[] } else { &["Monotonic"] };
+            let r = catch(|| Interp2DBuilder::new(data.clone()).x(x).y(y).build().map(|_| ()));
+            judge1(format!("alias2d:m{m}:x{xinc}:y{yinc}"), r, want, out, format!("x = table.column(0), y = table.row(0) of one {m}x{m} table: x {:?}, y {:?}", x.to_vec(), y.to_vec()));
+            // the same view for both axes
+            let want: &[&'static str] = if xinc { &[] } else { &["Monotonic"] };
+            let r = catch(|| Interp2DBuilder::new(data.clone()).x(x).y(x).build().map(|_| ()));
+            judge1(format!("alias2d-same:m{m}:x{xinc}"), r, want, out, format!("x and y are the same view {:?}", x.to_vec()));
+            // 1-D: the axis is a view of the data's first column
+            let r = catch(|| Interp1DBuilder::new(table.view()).x(x).build().map(|_| ()));
+            judge1(format!("alias1d:m{m}:x{xinc}:{yok}"), r, want, out, format!("Interp1D with x = data.column(0) = {:?}", x.to_vec()));
+        }
+    }
+    // (3) the default index axis of a long f32 data set is not strictly increasing (2^24 + 1 is
+    // not representable): build must report it, not hand out an interpolator
+    let n = (1usize << 24) + 2;
+    let d = Array1::<f32>::zeros(n);
+    let r = catch(|| Interp1DBuilder::new(d.view()).build().map(|_| ()));
+    judge1("f32-default-axis-2^24+2".into(), r, &["Monotonic"], out, format!("Interp1D over {n} f32 values with the default index axis"));
+    if !quick {
+        let d = Array2::<f32>::zeros((n, 2));
+        let r = catch(|| Interp2DBuilder::new(d.view()).build().map(|_| ()));
+        judge1("f32-default-x-axis-2^24+2".into(), r, &["Monotonic"], out, format!("Interp2D over ({n}, 2) f32 values with default axes"));
+    }
+}
+
 fn body(ctx: &Ctx) -> (Summary, Meta) {
     let quick = ctx.quick();
     let mut all: Vec<AnyCase> = cases_1d().into_iter().map(AnyCase::One).collect();
@@ -483,8 +573,16 @@ fn body(ctx: &Ctx) -> (Summary, Meta) {
         }
         out
     });
+    let mut sum = sum;
+    sum.merge(run_jobs(ctx, "special-cases", &[()], |_| "special".to_string(), |_| {
+        let mut out = JobOut::default();
+        special_cases(quick, &mut out);
+        out.states = out.evals;
+        out.sample = Some(Json::str("long axes with one defect at every position; aliased axis views; f32 default axis of 2^24+2 points"));
+        out
+    }));
     let meta = Meta {
-        rule: "full factorial decision table. 1-D: data rank {dynamic 0, static and dynamic 1..3} x length 0..min+2 x axis {default, explicit of length n-1, n, n+1} x order pattern {increasing, tie / adjacent swap / NaN at each position, decreasing, +inf last, empty, single} x strategy {Linear, CubicSpline NotAKnot, Periodic with ends equal / unequal in each lane / NaN, Individual with boundary array shape ok / wrong leading / wrong trailing / wrong rank}; 2-D: x-factors x y-factors x rank {dynamic 0, 1, ok}, non-square. Oracle: valid iff no requirement violated; otherwise the returned BuilderError kind must belong to the kinds of the violated requirements; never a panic. Non-trivial = input with at least one violated requirement.".into(),
+        rule: "full factorial decision table. 1-D: data rank {dynamic 0, static and dynamic 1..3} x length 0..min+2 x axis {default, explicit of length n-1, n, n+1} x order pattern {increasing, tie / adjacent swap / NaN at each position, decreasing, +inf last, empty, single} x strategy {Linear, CubicSpline NotAKnot, Periodic with ends equal / unequal in each lane / NaN, Individual with boundary array shape ok / wrong leading / wrong trailing / wrong rank}; 2-D: x-factors x y-factors x rank {dynamic 0, 1, ok}, non-square. Oracle: valid iff no requirement violated; otherwise the returned BuilderError kind must belong to the kinds of the violated requirements; never a panic. Plus special cases: long axes (up to 257 / 1025 points) with a tie, a dip or NaN at every position for Interp1D and both axes of Interp2D; x and y as views into one table starting at the same element (column and row), the same view for both axes, the axis as a view of the data; the default index axis of 2^24+2 f32 values (not strictly increasing after the cast). Non-trivial = input with at least one violated requirement.".into(),
         bounds: format!("{n1} 1-D cases + {n2} 2-D cases (every combination of simultaneous violations); tier {}", ctx.tier.name()),
         assumptions: vec!["an axis with fewer than 2 points counts as not strictly increasing (consistent with C12)".into()],
         extra: vec![],
